@@ -113,6 +113,11 @@ pub fn build(a: &LensArgs) -> LensCfg {
             cfg.name = "cleaner";
             cfg.codes = codes(&[New, Dup, Drop, Store, Take, Collect, Register, Clean, DropCleanable, TakeG, DropG, PutG]);
             cfg.action_menu = a.action_menu.clone().unwrap_or_else(|| vec![0, 1, 3, 4, 5]);
+            // optional: scripted finalizers on the objects that actions release (callbacks nested in actions)
+            if let Some(m) = a.fin_menu.clone() {
+                cfg.codes |= codes(&[SetFin]);
+                cfg.fin_menu = m;
+            }
         },
         // Many cleaning actions on one Cleaner (slot reuse inside the action map)
         "cleanermany" => {
@@ -138,7 +143,7 @@ pub fn build(a: &LensArgs) -> LensCfg {
         "dyn" => {
             cfg.name = "dyn";
             cfg.codes = codes(&[Dup, Drop, Take, MarkAlive, Collect, TakeG, DropG, Upgrade, DropWeak, Clean, DropCleanable]);
-            cfg.seed_codes = codes(&[New, Dup, Store, Drop, Downgrade, StoreWeak, SetFin, SetDrop, Register]);
+            cfg.seed_codes = codes(&[New, Dup, Store, Drop, Downgrade, StoreWeak, SetFin, SetDrop, Register, PutG]);
             cfg.fin_menu = a.fin_menu.clone().unwrap_or_else(|| vec![0, 6]);
             cfg.drop_menu = a.drop_menu.clone().unwrap_or_else(|| vec![0, 1]);
             cfg.action_menu = a.action_menu.clone().unwrap_or_else(|| vec![]);
